@@ -2,6 +2,7 @@ package main
 
 import (
 	"fmt"
+	"sort"
 	"os"
 	"path/filepath"
 	"strconv"
@@ -229,6 +230,11 @@ func runC05(a vh.Args, o *vh.Oracle, r *vh.Result) error {
 			g.maxDir, g.budget = maxDir, maxDir+100
 		}
 		tree := g.node("root", 0, true)
+		if i == 0 { // goes through every route: symlinks whose targets are not clean paths
+			zoo := g.linkZoo("zz-unclean-link-targets")
+			tree.Children = append(tree.Children, zoo)
+			sort.Slice(tree.Children, func(a, b int) bool { return tree.Children[a].name() < tree.Children[b].name() })
+		}
 		level := 0
 		if i%cliEvery == 0 || i < 3 {
 			level = 1
